@@ -56,7 +56,16 @@ def extract_hdf5_datasets(filename, memmap=True):
             elif item.dtype.kind in ('V',):
                 arrays[full_path] = Table.read(item, format='hdf5')
 
-    file_handle.visititems(visitor)
+    # We iterate over the items ourselves rather than with visititems, which
+    # always visits in alphabetical order, so that the order in which the
+    # datasets were created is preserved for files that record it.
+    def visit(group):
+        for name, item in group.items():
+            visitor(name, item)
+            if isinstance(item, h5py.Group):
+                visit(item)
+
+    visit(file_handle)
     file_handle.close()
 
     # Now create memory-mapped arrays
